@@ -159,8 +159,12 @@ func init() {
 				{"after-elseif-paren", "<@if(0)X@elseif(1)", "@else Z@end>", ""},
 				{"before-else", "<@if(1)", "@else Z@end>", ""},
 				{"after-comment", "<{{-- c --}}", "{{-- d --}}>", ""},
+				// text after @break / @continue is never rendered, but it must still be text for the lexer
+				{"after-break", "<@each(v in [1, 2])a@break", "@end>", "\x00a"},
+				{"after-continue", "<@each(v in [1, 2])a@continue", "@end>", "\x00aa"},
+				{"after-slot-keyword", "<@component(\"c\")@slot", "@end@end>", "\x00skip"},
 			}
-			holeTexts := append(append([]string{}, texts...), "i", "f", "of", "off", "it works", "If", "Ifx", "if", "iffy", "(see note)", "( x )", "e", "end", "else", "each x", "for", "x@", "a@b.c")
+			holeTexts := append(append([]string{}, texts...), "i", "f", "of", "off", "it works", "If", "Ifx", "if", "iffy", "Ignored", "I", "Is skipped", "IF", "I@end", "Iff", "(see note)", "( x )", "e", "end", "else", "each x", "for", "x@", "a@b.c")
 			secs = append(secs, core.Section{Name: "text-in-blocks", Exhaustive: true, N: len(holeTexts),
 				Run: func(c *core.Ctx, i int) {
 					t := holeTexts[i]
@@ -173,12 +177,23 @@ func init() {
 						if h.name == "after-else" && strings.HasPrefix(t, "if") {
 							continue
 						}
+						if (h.name == "after-break" || h.name == "after-continue") && strings.HasPrefix(t, "If") {
+							continue
+						}
+						if h.name == "after-slot-keyword" {
+							continue // needs a template tree; the string API has no components
+						}
 						src := h.pre + t + h.post
 						// the text must not fuse with what follows it into syntax (trailing backslash, brace)
 						if _, at := scanText(t + h.post); at != len(t) && h.post != ">" {
 							continue
 						}
 						if strings.HasSuffix(t, "\\") {
+							continue
+						}
+						if strings.HasPrefix(h.outPre, "\x00") {
+							// the text itself is not rendered: the expected output is fixed
+							judge(c, "text-in-block-"+h.name, src, "<"+h.outPre[1:]+">")
 							continue
 						}
 						judge(c, "text-in-block-"+h.name, src, "<"+h.outPre+out+">")
